@@ -1,0 +1,57 @@
+//go:build verif
+// +build verif
+
+// Contracts for deductive verification of package backend (comment-only; compiled only
+// with the build tag "verif"). Grammar: /verif/DESIGN.md, Appendix B.
+
+package backend
+
+// ---------------------------------------------------------------- C25 replica selection
+//@ property C25: lemma rrStep, lemma rrStepAcrossWrap, (*balancer).next, (*NodeInfo).IsStatusUp, (*DBInfo).GetNode,
+//@   (*Slice).getNodeFromBalancer, (*Slice).GetSlaveConn
+
+// next advances the 32-bit counter by one and returns the queue entry at counter mod len(Q):
+// consecutive calls visit consecutive queue positions (mod len(Q)), so any len(Q) consecutive
+// selections pick every queue position exactly once -- unless the counter wraps in between.
+//@ func (*balancer).next
+//@   requires b != nil
+//@   assigns b.nextIndex
+//@   ensures case empty:  len(b.roundRobinQ) == 0 ==> ret1 != nil && b.nextIndex == old(b.nextIndex)
+//@   ensures case single: len(b.roundRobinQ) == 1 ==> ret1 == nil && ret0 == b.roundRobinQ[0] && b.nextIndex == old(b.nextIndex)
+//@   ensures case counter: len(b.roundRobinQ) > 1 ==> ret1 == nil && b.nextIndex == (old(b.nextIndex) + 1) % 4294967296
+//@   ensures case pick:   len(b.roundRobinQ) > 1 ==> ret0 == b.roundRobinQ[int(b.nextIndex) % len(b.roundRobinQ)]
+//@   ensures case member: ret1 == nil ==> mem(b.roundRobinQ, ret0)
+// the queue position advances by one (mod L) per call as long as the counter does not wrap ...
+//@ lemma rrStep: forall(c int, forall(L int, 0 <= c && c < 4294967295 && L > 1 ==> (c + 1) % L == (c % L + 1) % L))
+// ... and also across the wrap 2^32-1 -> 0 (property text: ANY run of consecutive selections)
+//@ lemma rrStepAcrossWrap: forall(L int, L > 1 && L <= 1024 ==> ((4294967295 + 1) % 4294967296) % L == (4294967295 % L + 1) % L)
+
+//@ func (*NodeInfo).IsStatusUp
+//@   requires n != nil
+//@   assigns \nothing
+//@   ensures ret0 <==> n.Status == StatusUp
+
+//@ func (*DBInfo).GetNode
+//@   requires d != nil
+//@   assigns \nothing
+//@   ensures (ret1 == nil) <==> (0 <= index && index < len(d.Nodes))
+//@   ensures ret1 == nil ==> ret0 == d.Nodes[index]
+//@   ensures ret1 != nil ==> ret0 == nil
+
+// a node is returned only if it is up and is one of the balancer's candidates
+//@ func (*Slice).getNodeFromBalancer
+//@   requires s != nil && slavesInfo != nil && bal != nil
+//@   assigns bal.nextIndex
+//@   loop 0(i) invariant 0 <= i
+//@   loop 0(i) assigns bal.nextIndex
+//@   ensures case up:        ret1 == nil ==> ret0 != nil && ret0.Status == StatusUp
+//@   ensures case candidate: ret1 == nil ==> exists(k, 0, len(bal.roundRobinQ), 0 <= bal.roundRobinQ[k] && bal.roundRobinQ[k] < len(slavesInfo.Nodes) && slavesInfo.Nodes[bal.roundRobinQ[k]] == ret0)
+//@   ensures case failed:    ret1 != nil ==> ret0 == nil
+
+// forced-local reads consult only the local balancer; closed/default only the global one; preferred the local then the remote one
+//@ func (*Slice).GetSlaveConn
+//@   requires s != nil && slavesInfo != nil
+//@   assert at call getConnFromBalancer: localSlaveReadPriority == LocalSlaveReadForce ==> arg2 == slavesInfo.LocalBalancer
+//@   assert at call getConnFromBalancer: localSlaveReadPriority == LocalSlaveReadPrefer ==> (arg2 == slavesInfo.LocalBalancer || arg2 == slavesInfo.RemoteBalancer)
+//@   assert at call getConnFromBalancer: (localSlaveReadPriority != LocalSlaveReadForce && localSlaveReadPriority != LocalSlaveReadPrefer) ==> arg2 == slavesInfo.GlobalBalancer
+//@   assert at call getConnFromBalancer: arg2 != nil
